@@ -45,7 +45,7 @@ func (s *c19scripted) Choose(existing hash.Events, options hash.Events) int {
 func runC19(c *ev.Ctx) {
 	c.Rule = "random existing-parent lists (0..5 distinct events), option lists (0..10 entries with duplicates and overlaps with the existing parents), strategy lists of 0..6 strategies mixing MetricStrategy (metric tables with ties, zeros and values >= 2^63), RandomStrategy and a scripted legal strategy; " +
 		"oracle = the clauses of the statement: result starts with the existing parents in order; then at most one new parent per strategy; no parent repeated; every new parent was offered; number of new parents = min(#strategies, #distinct options not already parents); strategies are only ever shown non-empty, duplicate-free options that exclude current parents; a MetricStrategy's pick has the maximal metric among the options it was shown. " +
-		"Plus reuse: one MetricStrategy object serves 2-4 selections in a row while the metric of the same events changes in between; each pick is maximal under the metric at that selection. " +
+		"The existing parents are handed over as a prefix of a larger array whose tail must stay untouched, and a second selection from the same base must not change the first result; every fourth case has the all-zero hash in the pool. Plus reuse: one MetricStrategy object serves 2-4 selections in a row while the metric of the same events changes in between; each pick is maximal under the metric at that selection. " +
 		"non-trivial = distinct inputs with >=2 existing parents of which one is also offered as option, >=2 strategies and a metric tie or a metric >= 2^63"
 	c.Assumptions = []string{"existing parents are distinct events (they are parents of one event)", "metric function is deterministic during one ChooseParents call (it may change between calls)"}
 	n := c.Pick(300000, 10000000)
@@ -64,6 +64,9 @@ func c19Case(c *ev.Ctx, r *rand.Rand, caseN int) {
 	pool := make(hash.Events, 12)
 	for i := range pool {
 		pool[i] = hash.Event{byte(i + 1), byte(caseN), byte(caseN >> 8)}
+	}
+	if caseN%4 == 0 {
+		pool[0] = hash.ZeroEvent // the all-zero hash is an event ID like any other
 	}
 	perm := r.Perm(len(pool))
 	nEx := r.Intn(6)
@@ -118,8 +121,16 @@ func c19Case(c *ev.Ctx, r *rand.Rand, caseN int) {
 		return map[string]interface{}{"case": caseN, "existing": fmt.Sprint(existing), "options": fmt.Sprint(options), "strategies": nSt, "metric": fmt.Sprint(metric)}
 	}
 	var res hash.Events
+	// the caller's slice of existing parents is a prefix of a larger array (heads[:k]); what lies behind it is the caller's
+	sentinel := hash.Event{0xEE, 0xEE, byte(caseN)}
+	base := make(hash.Events, len(existing), len(existing)+8)
+	copy(base, existing)
+	tail := base[len(existing):cap(base)]
+	for k := range tail {
+		tail[k] = sentinel
+	}
 	if p, _ := ev.Try(func() {
-		res = ancestor.ChooseParents(append(hash.Events{}, existing...), append(hash.Events{}, options...), strategies)
+		res = ancestor.ChooseParents(base, append(hash.Events{}, options...), strategies)
 	}); p != nil {
 		m := desc()
 		m["panic"] = fmt.Sprint(p)
@@ -131,6 +142,33 @@ func c19Case(c *ev.Ctx, r *rand.Rand, caseN int) {
 		m := desc()
 		m["result"], m["why"] = fmt.Sprint(res), why
 		c.Violation(class, m)
+	}
+	for k := range tail {
+		if tail[k] != sentinel {
+			fail("parent-not-offered", fmt.Sprintf("the selection wrote into the caller's array behind the existing parents (slot +%d)", k))
+			return
+		}
+	}
+	if nSt > 0 && len(options) > 0 {
+		// a second selection from the same base must not change the first result
+		first := append(hash.Events{}, res...)
+		var single []ancestor.SearchStrategy
+		single = append(single, ancestor.NewRandomStrategy(rand.New(rand.NewSource(int64(caseN)))))
+		rev := make(hash.Events, 0, len(options))
+		for k := len(options) - 1; k >= 0; k-- {
+			rev = append(rev, options[k])
+		}
+		if p, _ := ev.Try(func() { ancestor.ChooseParents(base, rev, single) }); p != nil {
+			fail("choose-parents-panics", fmt.Sprint(p))
+			return
+		}
+		for k := range first {
+			if res[k] != first[k] {
+				fail("parent-not-offered", fmt.Sprintf("an earlier result changed at position %d when the same existing parents were used for another selection", k))
+				return
+			}
+		}
+		c.Count("second_selections_from_the_same_base", 1)
 	}
 	if len(res) < len(existing) {
 		fail("existing-parents-not-first", "result shorter than existing")
